@@ -74,7 +74,14 @@ def create_linked_view(project, prefix=None, job_ids=None, path=None):
 
     links = {}
     for job in jobs:
-        paths = os.path.join(path_function(job), "job")
+        # Normalize the link paths: paths that differ as strings may name the same
+        # place below the prefix (e.g., "a/" and "a/."), and the view is analyzed in
+        # terms of normalized paths.
+        paths = os.path.normpath(os.path.join(path_function(job), "job"))
+        if paths in links:
+            raise RuntimeError(
+                f"The path '{paths}' is not unique: it is generated for more than one job."
+            )
         links[paths] = job.path
     for link_path in links:
         if os.path.isabs(link_path) or os.pardir in link_path.split(os.sep):
